@@ -2,6 +2,7 @@ import Proofs.TrieBuild
 import Proofs.TrieOfTable
 import Proofs.TrieShape
 import Proofs.TrieBuildClosed
+import Proofs.TrieBuildBlanks
 import Properties.C03Trie
 /-!
 # C03 (trie clause, builder) — lm/search_trie.cc between the ARPA n-grams and the trie memory
@@ -250,6 +251,65 @@ theorem blank_value_partial (fval : Nat → Rat) (fadd : Nat → Nat → Nat) (h
     (hz : fval minusZero = 0 ∧ fval plusZero = 0) (gs : List Gram) (b : Blank) :
     fval (blankProb fadd gs b) = fval b.basis + ((messageKeys b).map (msgValue fval gs)).sum :=
   blankProb_value fval fadd hadd hz gs b
+
+/-! ## Round 6: models that need blanks (SRI-pruned) — end to end -/
+
+/-- what the float arithmetic must satisfy on the model at hand (`ArpaEncW` is about the parsed values): the addition used for
+`base[..] += backoff` is exact on the decoded values, and every blank's sum fits 32 bits and survives the non-positive 31-bit
+encoding of `WriteNonPositiveFloat31` (proper model: blank scores ≤ 0) -/
+structure BlankArith (fval : Nat → Rat) (fadd : Nat → Nat → Nat) (a : Arpa) (P B : List Word → Nat) : Prop where
+  add : ∀ x y, fval (fadd x y) = fval x + fval y
+  sign : ∀ st, visitAll (visitOrder (gramsOf a P B)) = .ok st → ∀ b ∈ st.blanks,
+    blankProb fadd (visitOrder (gramsOf a P B)) b < 2^32 ∧
+    fval (blankProb fadd (visitOrder (gramsOf a P B)) b % 2^31 + 2^31) = fval (blankProb fadd (visitOrder (gramsOf a P B)) b)
+
+open KV.Table KV.Score KV.State in
+/-- **trie_build_represents** — for every well-formed ARPA model, suffix-closed or not (SRI-pruned models included), with a value
+encoding and exact arithmetic on its values: the model of `lm/search_trie.cc` succeeds; the blanks it creates are exactly the
+missing reversed prefixes, each once (`visit_full`); its bit table agrees with `Table.build a` on every key — real entries and
+blanks, probabilities (blank = the back-off recursion `score`), back-offs, extends-left, and extends-right from the context
+streams and the `SRISucks` messages incl. the leftover loop (`gen_table_agree`); and the memory `ofTable` writes from it
+**represents `Table.build a`**. -/
+theorem trie_build_represents (fval : Nat → Rat) (fadd : Nat → Nat → Nat) (a : Arpa) (bound start : Nat)
+    (P B : List Word → Nat) (enc : ArpaEncW fval a bound P B) (ar : BlankArith fval fadd a P B)
+    (sm : ∀ st, visitAll (visitOrder (gramsOf a P B)) = .ok st →
+      SmallOK (genTable fadd a.order (visitOrder (gramsOf a P B)) st.blanks) bound a.order) :
+    ∃ b, buildTable fadd a.order (gramsOf a P B) = .ok b ∧
+      Represents fval (ofTable b.table bound a.order start) (Table.build a) (rngOf b.table bound) := by
+  obtain ⟨st, b, hst, hf, hb, htab, _⟩ := buildTable_general fadd enc
+  refine ⟨b, hb, ?_⟩
+  rw [htab]
+  have hs := ar.sign st hst
+  have rep := ofTable_represents_general fval _ bound a.order start (genTable_btok fadd enc st hf)
+    (genTable_vals fadd enc st (fun b hb => (hs b hb).1)) (sm st hst)
+  exact rep.transfer (gen_table_agree fadd enc ar.add st hf (fun b hb => (hs b hb).2))
+
+open KV.Table KV.Score KV.State in
+/-- **trie_end_to_end** — ARPA → trie builder → memory → every query = the ARPA back-off recursion, for every well-formed model
+including those that need hallucinated blanks: `FullScore` over the memory the trie builder writes returns `score a h w` for
+every state reached by left-to-right scoring and every vocabulary word.  No `Represents`, no layout, no suffix-closure
+hypothesis. -/
+theorem trie_end_to_end (fval : Nat → Rat) (fadd : Nat → Nat → Nat) (a : Arpa) (bound start : Nat)
+    (P B : List Word → Nat) (enc : ArpaEncW fval a bound P B) (ar : BlankArith fval fadd a P B)
+    (sm : ∀ st, visitAll (visitOrder (gramsOf a P B)) = .ok st →
+      SmallOK (genTable fadd a.order (visitOrder (gramsOf a P B)) st.blanks) bound a.order)
+    (h : List Word) (st : State) (sf : StateFor a h st) (w : Word) (hw : a.gram [w] ≠ none)
+    (hwb : w < bound) (hs : ∀ x ∈ st.words.take st.length, x < bound) :
+    ∃ M, buildTrie fadd a.order bound start (gramsOf a P B) = .ok M ∧
+      (fullScore (search fval M) st w).1.prob = score a h w := by
+  obtain ⟨b, hb, rep⟩ := trie_build_represents fval fadd a bound start P B enc ar sm
+  refine ⟨ofTable b.table bound a.order start, by simp [buildTrie, hb], ?_⟩
+  have hbd : (ofTable b.table bound a.order start).bound = bound :=
+    ofTable_bound _ bound a.order start (by have := enc.wf.order_ge; omega)
+  exact KV.C03Trie.trie_prob a enc.wf (fun _ => false) fval _ _ rep h st sf w hw (by rw [hbd]; exact hwb) (by rw [hbd]; exact hs)
+
+/-- the blanks of the pass, exactly (general): success, soundness, completeness, no duplicates -/
+theorem trie_build_blanks_exact (fval : Nat → Rat) (a : Arpa) (bound : Nat) (P B : List Word → Nat)
+    (enc : ArpaEncW fval a bound P B) :
+    ∃ st, visitAll (visitOrder (gramsOf a P B)) = .ok st ∧ (st.blanks.map (·.key)).Nodup ∧
+      ∀ g, (∃ b ∈ st.blanks, b.key = g) ↔ IsBlankKey a g := by
+  obtain ⟨st, hst, hf⟩ := w_visit enc
+  exact ⟨st, hst, hf.nodup, blank_iff enc st hf⟩
 
 set_option maxRecDepth 8000
 section ExampleClosed
